@@ -239,17 +239,33 @@ def rule_R3(ctx, typer):
     want = {"up": "RootResolverError", "child": "ChildResolverError", "root": "ResolverError"}
     seen = {"up": [], "child": [], "root": []}
     n = 0
+    ty = typer_for(ctx)
+    # helper methods called only from the start-up code inherit its context
+    callers = {}
     for f in cls.funcs():
-        cfg = typer_for(ctx).cfg_of(f)
+        ft = ty.results.get(f)
+        if ft is None:
+            continue
+        for res in ft.calls.values():
+            if res.kind == "func" and isinstance(res.target, Func) and res.target.cls is cls:
+                callers.setdefault(res.target, set()).add(f)
+    rootctx = {funcs["__start"]} if "__start" in funcs else set()
+    changed = True
+    while changed:
+        changed = False
+        for f, cs in callers.items():
+            if f not in rootctx and cs and cs <= rootctx:
+                rootctx.add(f)
+                changed = True
+    for f in cls.funcs():
+        cfg = ty.cfg_of(f)
         handler_names = {h.name for h in ast.walk(f.node) if isinstance(h, ast.ExceptHandler) and h.name}
         for node in cfg.stmt_nodes(("raisestmt",)):
             c = _raise_class(node.ast)
             if c is None or c in handler_names or c not in ERR_CLASSES:
                 continue
             gs = cfg.guards_of(node)
-            ctxkind = "child"
-            if f.srcname == "__start":
-                ctxkind = "root"
+            ctxkind = "root" if f in rootctx else "child"
             for cond, outcome, _ in gs:
                 if isinstance(cond, ast.Compare) and len(cond.ops) == 1 and isinstance(cond.ops[0], ast.Eq) and outcome is True:
                     for side in (cond.left, cond.comparators[0]):
@@ -261,12 +277,11 @@ def rule_R3(ctx, typer):
                 ctx.viol("R3", f, node.ast, "dead end of kind '%s' raises %s; the specified class is %s" % (ctxkind, c, want[ctxkind]))
             else:
                 ctx.inst("R3", f, node.ast, "%s dead end raises %s" % (ctxkind, c))
-    for k, wantn in (("up", 2), ("child", 2), ("root", 2)):
-        if len(seen[k]) < wantn:
+    for k in ("up", "child", "root"):
+        if not seen[k]:
             f = funcs.get("get")
-            ctx.viol("R3", f, f.node, "only %d raise site(s) for dead ends of kind '%s' (get and glob each need one; 2 on the pinned "
-                     "tree): a dead end is no longer reported in strict mode" % (len(seen[k]), k),
-                     construct="Resolver: %d '%s' raise sites" % (len(seen[k]), k))
+            ctx.viol("R3", f, f.node, "no raise site for dead ends of kind '%s': such a dead end is no longer reported in strict mode" % k,
+                     construct="Resolver: no '%s' raise site" % k)
     return n
 
 
@@ -402,89 +417,150 @@ def _split_concat(e):
 
 
 def rule_G1(ctx, typer):
+    """taint rule: every fragment that reaches re.compile is the literal
+    translation of the wildcard its branch tests for, or re.escape(<pattern
+    character>); the result is wrapped by a flags-only prefix and an
+    end-of-string anchor and applied with .match"""
     cls, funcs = resolver_funcs(ctx.p)
     tr = funcs.get("__translate")
     ma = funcs.get("__match")
     if tr is None or ma is None:
         raise AnalysisError("anchor Resolver.__translate/__match not found")
-    n = 0
-    ft = typer.results.get(tr)
+    cfg = typer.cfg_of(tr)
     patparam = tr.posparams[0] if tr.kind == "static" else tr.posparams[1]
-    # tainted names: the pattern and loop variables over it
     tainted = {patparam}
+    changed = True
+    while changed:
+        changed = False
+        for node in walk_own(tr.node):
+            tgt, it = None, None
+            if isinstance(node, ast.For):
+                tgt, it = node.target, node.iter
+            elif isinstance(node, ast.comprehension):
+                tgt, it = node.target, node.iter
+            if tgt is not None and isinstance(tgt, ast.Name) and tgt.id not in tainted and any(
+                    isinstance(x, ast.Name) and x.id in tainted for x in ast.walk(it)):
+                tainted.add(tgt.id)
+                changed = True
+    assigns, augs, appends = {}, {}, {}
     for node in walk_own(tr.node):
-        if isinstance(node, ast.For) and isinstance(node.target, ast.Name) and any(
-                isinstance(x, ast.Name) and x.id in tainted for x in ast.walk(node.iter)):
-            tainted.add(node.target.id)
-    # accumulator: names returned (transitively through concatenation)
+        if isinstance(node, ast.Assign) and len(node.targets) == 1 and isinstance(node.targets[0], ast.Name):
+            assigns.setdefault(node.targets[0].id, []).append(node)
+        elif isinstance(node, ast.AugAssign) and isinstance(node.target, ast.Name):
+            augs.setdefault(node.target.id, []).append(node)
+        elif isinstance(node, ast.Expr) and isinstance(node.value, ast.Call) and isinstance(node.value.func, ast.Attribute) \
+                and node.value.func.attr in ("append", "extend") and isinstance(node.value.func.value, ast.Name):
+            appends.setdefault(node.value.func.value.id, []).append(node)
+    state = {"n": 0}
+    visiting = set()
+
+    def which_from_guards(stmt):
+        which = None
+        for cn in cfg.nodes_of(stmt):
+            for c, o, _ in cfg.guards_of(cn):
+                w = _wild_test(c)
+                if w is not None and o is True:
+                    which = w
+        return which
+
+    def _wild_test(c):
+        if isinstance(c, ast.Compare) and len(c.ops) == 1 and isinstance(c.ops[0], ast.Eq):
+            for side, other in ((c.left, c.comparators[0]), (c.comparators[0], c.left)):
+                if isinstance(side, ast.Constant) and side.value in ("*", "?") and isinstance(other, ast.Name) and other.id in tainted:
+                    return side.value
+        return None
+
+    def frag(e, which, where):
+        """check one regex fragment expression"""
+        state["n"] += 1
+        if isinstance(e, ast.Constant) and isinstance(e.value, str):
+            if e.value == "":
+                ctx.inst("G1", tr, where, "empty fragment")
+            elif which is not None and _wild_ok(which, e.value):
+                ctx.inst("G1", tr, where, "wildcard %r translated to %r" % (which, e.value))
+            else:
+                ctx.viol("G1", tr, where, "regex fragment %r is used %s: not the translation of a wildcard ('*' → any run, '?' → one "
+                         "character)" % (e.value, "for wildcard %r" % which if which else "outside a wildcard branch"))
+            return
+        if isinstance(e, ast.Call) and norm(e.func) == "re.escape" and len(e.args) == 1:
+            ctx.inst("G1", tr, where, "pattern character passes through re.escape")
+            return
+        if isinstance(e, ast.IfExp):
+            w = _wild_test(e.test)
+            frag(e.body, w if w is not None else which, where)
+            frag(e.orelse, which if w is not None else which, where)
+            return
+        if isinstance(e, ast.BinOp) and isinstance(e.op, ast.Add):
+            frag(e.left, which, where)
+            frag(e.right, which, where)
+            return
+        if isinstance(e, ast.Call) and isinstance(e.func, ast.Attribute) and e.func.attr == "join" and len(e.args) == 1:
+            sep = e.func.value
+            if not (isinstance(sep, ast.Constant) and sep.value == ""):
+                ctx.viol("G1", tr, where, "fragments are joined with a non-empty separator `%s`" % norm(sep))
+            frag(e.args[0], which, where)
+            return
+        if isinstance(e, (ast.ListComp, ast.GeneratorExp)):
+            for g in e.generators:
+                for c in g.ifs:
+                    ctx.viol("G1", tr, where, "pattern characters are dropped by the condition `%s`" % norm(c))
+            frag(e.elt, which, where)
+            return
+        if isinstance(e, (ast.List, ast.Tuple)):
+            for x in e.elts:
+                frag(x, which, where)
+            return
+        if isinstance(e, ast.Name):
+            name = e.id
+            if name in tainted:
+                ctx.viol("G1", tr, where, "pattern text `%s` reaches the regular expression without re.escape: names containing regex "
+                         "metacharacters are matched wrongly" % name)
+                return
+            if name in visiting:
+                return
+            visiting.add(name)
+            srcs = assigns.get(name, []) + augs.get(name, []) + appends.get(name, [])
+            if not srcs:
+                ctx.viol("G1", tr, where, "unrecognised regex fragment `%s`" % name)
+            for st in srcs:
+                w = which_from_guards(st)
+                if isinstance(st, ast.Assign):
+                    frag(st.value, w, st)
+                elif isinstance(st, ast.AugAssign):
+                    frag(st.value, w, st)
+                else:
+                    for a in st.value.args:
+                        frag(a, w, st)
+            visiting.discard(name)
+            return
+        if any(isinstance(x, ast.Name) and x.id in tainted for x in ast.walk(e)):
+            ctx.viol("G1", tr, where, "pattern text reaches the regular expression without re.escape: `%s`" % norm(e))
+        else:
+            ctx.viol("G1", tr, where, "unrecognised regex fragment `%s`" % norm(e))
+
     rets = [x for x in walk_own(tr.node) if isinstance(x, ast.Return) and x.value is not None]
     if not rets:
         raise AnalysisError("Resolver.__translate has no return")
-    acc = set()
-    consts_in_return = []
     for r in rets:
         parts = _split_concat(r.value)
-        pre, post, seen_acc = "", "", False
+        pre, post, seen_body = "", "", False
         for part in parts:
             if isinstance(part, ast.Constant) and isinstance(part.value, str):
-                if seen_acc:
+                if seen_body:
                     post += part.value
                 else:
                     pre += part.value
-            elif isinstance(part, ast.Name):
-                acc.add(part.id)
-                seen_acc = True
             else:
-                n += 1
-                ctx.viol("G1", tr, r, "returned regex contains a piece that is neither a literal nor the escaped accumulator: %s" % norm(part))
-        n += 1
+                seen_body = True
+                frag(part, None, r)
+        state["n"] += 1
         ok = _anchored(pre, post)
         if ok is True:
             ctx.inst("G1", tr, r, "body wrapped by flags-only prefix %r and end-of-string anchor %r" % (pre, post))
         else:
             ctx.viol("G1", tr, r, "translated pattern is not anchored to the whole name: %s" % ok)
-    cfg = typer.cfg_of(tr)
-    for node in walk_own(tr.node):
-        tgt, val = None, None
-        if isinstance(node, ast.AugAssign) and isinstance(node.target, ast.Name) and node.target.id in acc:
-            tgt, val = node.target.id, node.value
-        elif isinstance(node, ast.Assign) and len(node.targets) == 1 and isinstance(node.targets[0], ast.Name) \
-                and node.targets[0].id in acc:
-            tgt, val = node.targets[0].id, node.value
-        if tgt is None:
-            continue
-        for part in _split_concat(val):
-            n += 1
-            if isinstance(part, ast.Name) and part.id in acc:
-                continue
-            if isinstance(part, ast.Constant) and part.value == "":
-                ctx.inst("G1", tr, node, "empty initial accumulator")
-                continue
-            if isinstance(part, ast.Call) and norm(part.func) == "re.escape" and len(part.args) == 1:
-                ctx.inst("G1", tr, node, "pattern character passes through re.escape")
-                continue
-            if isinstance(part, ast.Constant) and isinstance(part.value, str):
-                # must be the translation of the wildcard the branch tests for
-                which = None
-                for cn in cfg.nodes_of(node):
-                    for c, o, _ in cfg.guards_of(cn):
-                        if o is True and isinstance(c, ast.Compare) and len(c.ops) == 1 and isinstance(c.ops[0], ast.Eq):
-                            for side in (c.left, c.comparators[0]):
-                                if isinstance(side, ast.Constant) and side.value in ("*", "?"):
-                                    which = side.value
-                if which is not None and _wild_ok(which, part.value):
-                    ctx.inst("G1", tr, node, "wildcard %r translated to %r" % (which, part.value))
-                else:
-                    ctx.viol("G1", tr, node, "regex fragment %r is appended %s: not the translation of a wildcard "
-                             "('*' → any run, '?' → one character)" % (part.value, "for wildcard %r" % which if which else "outside a wildcard branch"))
-                continue
-            if any(isinstance(x, ast.Name) and x.id in tainted for x in ast.walk(part)):
-                ctx.viol("G1", tr, node, "pattern text reaches the regular expression without re.escape: `%s` — names containing "
-                         "regex metacharacters are matched wrongly" % norm(part))
-            else:
-                ctx.viol("G1", tr, node, "unrecognised regex fragment `%s`" % norm(part))
+    n = state["n"]
     # sink: re.compile(<result of __translate(pat)>) and matching with .match
-    mft = typer.results.get(ma)
     compiled = False
     for node in walk_own(ma.node):
         if isinstance(node, ast.Call) and norm(node.func) == "re.compile":
